@@ -144,8 +144,10 @@ void __wrap_GOMP_parallel(void (*fn)(void *), void *data, unsigned num_threads, 
     }
     pthread_attr_destroy(&attr);
     sim_wait_tasks(ids.data(), (int) granted); // the implicit barrier at the end of the region
-    for (unsigned t = 0; t < granted; ++t)
+    for (unsigned t = 0; t < granted; ++t) {
         pthread_join(th[t], nullptr);
+        sim_task_release(ids[t]);
+    }
 }
 
 // Other OpenMP constructs a parallel region may use. The library itself only needs GOMP_parallel; these keep the
